@@ -172,6 +172,46 @@ def inline_method_aliases(tree: ast.AST) -> int:
     return count
 
 
+def inline_return_temps(tree: ast.AST) -> int:
+    """Normalisation: `t = <expr>` immediately followed by `return t` becomes `return <expr>` when `t` occurs nowhere
+    else in the function (other such assign/return pairs of the same temporary are fine) - rules then see the returned
+    expression whether or not a temporary is used."""
+    count = 0
+    for fn in ast.walk(tree):
+        if not isinstance(fn, (ast.FunctionDef, ast.AsyncFunctionDef)):
+            continue
+        occurrences: dict[str, int] = {}
+        for n in ast.walk(fn):
+            if isinstance(n, ast.Name):
+                occurrences[n.id] = occurrences.get(n.id, 0) + 1
+        pairs: dict[str, list[tuple[list, int]]] = {}
+        for holder in ast.walk(fn):
+            blocks = [getattr(holder, f, None) for f in ("body", "orelse", "finalbody")]
+            for blk in blocks:
+                if not (isinstance(blk, list) and blk and isinstance(blk[0], ast.stmt)):
+                    continue
+                for i in range(len(blk) - 1):
+                    a, r = blk[i], blk[i + 1]
+                    if (isinstance(a, ast.Assign) and len(a.targets) == 1 and isinstance(a.targets[0], ast.Name) and isinstance(r, ast.Return)
+                            and isinstance(r.value, ast.Name) and r.value.id == a.targets[0].id
+                            and not any(isinstance(x, ast.Name) and x.id == r.value.id for x in ast.walk(a.value))):
+                        pairs.setdefault(r.value.id, []).append((blk, i))
+        for name, ps in pairs.items():
+            if occurrences.get(name) != 2 * len(ps):
+                continue
+            # rewrite from the back of each block so that indices stay valid
+            for blk, i in sorted(ps, key=lambda t: -t[1]):
+                a = blk[i]
+                if not (i + 1 < len(blk) and isinstance(a, ast.Assign) and isinstance(blk[i + 1], ast.Return)):
+                    continue
+                new = ast.Return(value=a.value)
+                ast.copy_location(new, a)
+                new.end_lineno, new.end_col_offset = getattr(a, "end_lineno", None), getattr(a, "end_col_offset", None)
+                blk[i:i + 2] = [new]
+                count += 1
+    return count
+
+
 def set_parents(tree: ast.AST) -> None:
     for node in ast.walk(tree):
         for child in ast.iter_child_nodes(node):
@@ -228,6 +268,7 @@ class Project:
                 self.parse_errors.append(f"{rel}: {exc}")
                 continue
             inline_method_aliases(tree)
+            inline_return_temps(tree)
             set_parents(tree)
             modname = PKG + "." + rel[:-3].replace(os.sep, ".")
             is_pkg = False
